@@ -113,7 +113,8 @@ def drive(tier):
 def run(tier):
     rep = Report("C10", tier)
     rep.add_mc("MC_Base58", vlib.run_mc("MC_Base58", cfg="MC_Base58_quick" if tier == "quick" else "MC_Base58"))
-    recs = drive(tier)
+    recs, nsecond, ndiff = vlib.second_pass(drive, tier)
+    rep.cov["second_pass_calls"], rep.cov["second_pass_differing"] = nsecond, ndiff
     for x in recs:
         x["_cost"] = 60 + 6 * len(json.dumps(x["in"]))
     mm = vlib.validate("Trace_Base58", recs)
